@@ -67,16 +67,22 @@ pub fn permutations_of(set: usize) -> u64 {
     (1..=SETS[set].len() as u64).product()
 }
 
-/// Total enumerated space: every set x every permutation x sync-cancel mode.
+/// Modes: 0 the final sync-cancel cancels everything, 1 one request completes
+/// normally first, 2 as 0 but the completion queue is already full of
+/// (wake-up) completions when the drops start, so that the final completions
+/// only become visible after a10 has made room.
+pub const MODES: u64 = 3;
+
+/// Total enumerated space: every set x every permutation x mode.
 pub fn total() -> u64 {
-    (0..SETS.len()).map(|s| permutations_of(s) * 2).sum()
+    (0..SETS.len()).map(|s| permutations_of(s) * MODES).sum()
 }
 
 fn decode(mut index: u64) -> Option<(usize, u64, u32)> {
     for s in 0..SETS.len() {
-        let n = permutations_of(s) * 2;
+        let n = permutations_of(s) * MODES;
         if index < n {
-            return Some((s, index / 2, (index % 2) as u32));
+            return Some((s, index / MODES, (index % MODES) as u32));
         }
         index -= n;
     }
@@ -262,6 +268,17 @@ fn run_case(seed: u64, index: u64, set: usize, perm: u64, mode: u32, rep: &mut R
         step(&mut ring);
     }
     alloc::a10(|| drop(sq));
+    if mode == 2 {
+        // More wake-up completions than the completion queue holds: the kernel keeps the rest
+        // (and everything posted later, e.g. the final completions of cancelled requests)
+        // until a10 has consumed a batch and enters again.
+        let mut k = simk::k();
+        let n = k.rings[&ring_fd].cq_entries + 3;
+        for _ in 0..n {
+            effects::post_raw(&mut k, ring_fd, simk::Cqe { user_data: 1, res: 0, flags: 0 });
+        }
+        trace.push(format!("cq-overflow:{n}-wakeups"));
+    }
     o.ring = Some(ring);
     // --- drop in the given order.
     let mut ring_dropped = false;
@@ -299,7 +316,11 @@ fn run_case(seed: u64, index: u64, set: usize, perm: u64, mode: u32, rep: &mut R
                 dfd_dropped_after_ring = ring_dropped;
                 alloc::a10(|| drop(o.dfd.take()));
                 if let Some(r) = o.ring.as_mut() {
-                    let _ = alloc::consumer(|| r.poll(Some(Duration::ZERO)));
+                    // A poll that finds completions ready does not enter the kernel, the
+                    // queued close is handed over by the next one that does.
+                    for _ in 0..3 {
+                        let _ = alloc::consumer(|| r.poll(Some(Duration::ZERO)));
+                    }
                 }
                 let mut k = simk::k();
                 k.sync_fd_events();
